@@ -10,4 +10,7 @@ open Strengths.Gen.PyNumeric
 limited number of digits (the model computes its values exactly and its texts through `repr`) -/
 theorem librdengine_full_precision : fullPrecision inv_librdengine = true := by decide +kernel
 
+/-- `librdengine.py` takes no maximum / minimum / absolute value and swallows no exception: nothing it computes is clamped -/
+theorem librdengine_no_clamping : clamp_librdengine = [] := by decide +kernel
+
 end Strengths.PyNumeric
